@@ -4,7 +4,8 @@
 (*                                                                         *)
 (* Part = "pairs": one state per ordered pair of annotations of the        *)
 (*   universe (Tier = "quick": depth <= 1, "thorough": depth <= 2 plus a   *)
-(*   handful of depth-3 nestings of Annotated / Array / unions); the       *)
+(*   handful of depth-3 nestings of Annotated / Array / unions; both tiers:  *)
+(*   DMeta, Annotated with every kind of metadata object); the              *)
 (*   laws of the reference relation are INVARIANTs evaluated per pair and   *)
 (*   the expected verdict of every pair is printed.                         *)
 (* Part = "pipes": one state per pipeline description (2-3 functions        *)
@@ -14,7 +15,9 @@
 (*   steps and MapSpecs; SIBLING shapes whose consumer takes two array      *)
 (*   inputs in every writable combination of access modes; SUPPLY shapes    *)
 (*   whose consumer parameters also carry a default or a bound value,      *)
-(*   attached in every way pipefunc offers); the expected outcome of        *)
+(*   attached in every way pipefunc offers; METADATA cases whose edge under *)
+(*   test carries an Annotated with a list / dict / set / dataclass instance *)
+(*   as metadata); the expected outcome of                                  *)
 (*   Pipeline([...]) is printed.                                            *)
 (*                                                                         *)
 (* The universe is the sequence USeq (a set, ordered by TLC); pairs and    *)
@@ -64,13 +67,28 @@ D2    == UNION {Un(k, Arg2) : k \in {"list", "tuple", "vtuple", "ann", "array", 
 D3x   == {Ann(Opt(ArrayOf(StrT))), Ann(UnionOf(ArrayOf(IntT), StrT)), Opt(Ann(ArrayOf(IntT))),
           ArrayOf(Ann(Opt(IntT))), ListOf(Opt(ArrayOf(IntT))), Ann(ListOf(Tup2(IntT, IntT)))}
 
-Universe == IF Tier = "quick" THEN D0 \cup D1 ELSE D0 \cup D1 \cup D2 \cup D3x
+(* Annotated with the OTHER KINDS of metadata object (TypeCompat section 1, "metadata"): every kind around a     *)
+(* class, and a few nestings -- the metadata around a union, and an Annotated inside a union / generic / Array. *)
+(* Both tiers.  (Inside a union only the hashable kind: typing.Union itself -- Python 3.12.1 -- hashes its      *)
+(* members and refuses `Optional[Annotated[int, ["a"]]]`; nobody can have written that annotation.)             *)
+MetaNew == AnnKinds \ {"ann"}
+DMeta == {AnnM(k, IntT) : k \in MetaNew \ {"annset"}} \cup {AnnM("anndata", BoolT)}
+         \cup {AnnM("anndict", Opt(IntT)), Opt(AnnM("annfrozen", IntT)), ListOf(AnnM("annset", IntT)),
+               ArrayOf(AnnM("anndata", IntT))}
+ASSUME \A A \in DMeta : IsUnion(A) => \A i \in DOMAIN A.a : ~HasUnhashableMeta(A.a[i])
+
+Universe == (IF Tier = "quick" THEN D0 \cup D1 ELSE D0 \cup D1 \cup D2 \cup D3x) \cup DMeta
 USeq     == SetToSeq(Universe)
 N        == Len(USeq)
 Idx(A)   == CHOOSE i \in 1..N : USeq[i] = A
 
 ASSUME Part \in {"pairs", "pipes"} /\ Tier \in {"quick", "thorough"} /\ Shard \in 0..(NShards - 1)
-ASSUME \A A \in Universe : Depth(A) <= (IF Tier = "quick" THEN 1 ELSE IF A \in D3x THEN 3 ELSE 2)
+ASSUME \A A \in Universe : Depth(A) <= (IF A \in D3x THEN 3 ELSE IF Tier = "quick" /\ A \notin DMeta THEN 1 ELSE 2)
+RECURSIVE KindsIn(_)
+KindsIn(A) == {A.k} \cup UNION {KindsIn(A.a[i]) : i \in DOMAIN A.a}
+ASSUME UnhashableKinds \subseteq AnnKinds /\ AnnKinds \subseteq UNION {KindsIn(A) : A \in Universe}    \* every kind occurs
+(* what the harness has to realise: which kinds of metadata object have no hash *)
+ASSUME PrintT(<<"META", ToJson([kinds |-> AnnKinds, unhashable |-> UnhashableKinds])>>)
 ASSUME \A A \in Universe : \A i \in DOMAIN A.a : ~HasNoAnn(A.a[i])       \* NoAnn only at the top
 ASSUME \A i \in 1..N : PrintT(<<"ANN", ToJson([i |-> i, t |-> USeq[i]])>>)
 
@@ -285,6 +303,19 @@ PSupQuick == {IntT, BoolT, FloatT, StrT, AnyT, NoAnn, Opt(IntT), ArrayOf(IntT)}
 PSup == IF Tier = "quick" THEN PSupQuick ELSE PSibQuick
 ASSUME PSup \subseteq PSib
 
+(* METADATA cases: an annotation of DMeta on one side (or both) of the edge under test, over the 2-3 function    *)
+(* shapes in which the edge is checked -- directly, element-wise, through a reduction / a partial reduction,    *)
+(* next to an element-wise consumer (fan3b), with a consumer that has a MapSpec of its own (reduce_other2).     *)
+(* As the producer's annotation: every such shape against the plain partners and against each other; as the     *)
+(* consumer's annotation of a plain producer: the direct and the two reducing shapes.                            *)
+(* The metadata is silent (TypeCompat!LawMetadataSilentPipe): the outcome is that of the erased annotations.    *)
+PMeta      == DMeta
+PPartner   == PSibQuick \cup {ArrayOf(BoolT)}
+MetaShapes == {"direct2", "emap2", "reduce2", "preduce2", "fan3b", "reduce_other2"}
+MetaShapesC == {"direct2", "reduce2", "preduce2"}
+ASSUME PMeta \cap PSet = {} /\ PPartner \subseteq PSet /\ PMeta \subseteq Universe
+ASSUME MetaShapes \subseteq Shapes \cup NamedShapes
+
 WellFormedPipe(shape, P) ==                                                                           \* tuple[NoAnn, int] cannot be written
     (shape \in ({"multi2", "multi2x"} \cup RenameShapes) \/ (shape \in SibShapes /\ SibOf(shape).fam = "sib2")
        \/ (shape \in SupShapes /\ SupRow(shape).fam = "supm")) => P.k # "NoAnn"
@@ -294,9 +325,16 @@ WellFormedPipe(shape, P) ==                                                     
 (* whose producer annotation is USeq[p].  Row states (j = 0 / shape = "row") carry no case.            *)
 PairRows == {[i |-> i, j |-> 0] : i \in {x \in 1..N : Mine(x)}}
 PairCases(i) == {[i |-> i, j |-> j] : j \in 1..N}
-PipeRows == {[shape |-> "row", p |-> Idx(P), c |-> 0, validate |-> FALSE] : P \in {X \in PSet : Mine(Idx(X))}}
-PipeCases(p) == {[shape |-> s, p |-> p, c |-> Idx(C), validate |-> v] :
-                    s \in {x \in Shapes \cup NamedShapes : WellFormedPipe(x, USeq[p])}, C \in PSet, v \in BOOLEAN}
+PipeRows == {[shape |-> "row", p |-> Idx(P), c |-> 0, validate |-> FALSE] : P \in {X \in PSet \cup PMeta : Mine(Idx(X))}}
+MetaCases(p) == IF USeq[p] \in PMeta
+                THEN {[shape |-> s, p |-> p, c |-> Idx(C), validate |-> v] : s \in MetaShapes, C \in PPartner \cup PMeta, v \in BOOLEAN}
+                ELSE IF USeq[p] \in PPartner
+                THEN {[shape |-> s, p |-> p, c |-> Idx(C), validate |-> v] : s \in MetaShapesC, C \in PMeta, v \in BOOLEAN}
+                ELSE {}
+PipeCases(p) == MetaCases(p)
+                \cup (IF USeq[p] \notin PSet THEN {}
+                      ELSE {[shape |-> s, p |-> p, c |-> Idx(C), validate |-> v] :
+                               s \in {x \in Shapes \cup NamedShapes : WellFormedPipe(x, USeq[p])}, C \in PSet, v \in BOOLEAN})
                 \cup (IF USeq[p] \notin PSib THEN {}
                       ELSE {[shape |-> s, p |-> p, c |-> Idx(C), validate |-> v] :
                                s \in {x \in SibShapes : WellFormedPipe(x, USeq[p])}, C \in PSib, v \in BOOLEAN})
@@ -355,6 +393,8 @@ InvUnion         == IsPair => ((~HasNoAnn(A_) /\ ~HasNoAnn(B_)) =>
 InvCovariant     == IsPair => /\ LawCovariant(A_, B_, Strict) /\ LawArity(A_, B_, Strict)
                               /\ LenientToo => (LawCovariant(A_, B_, Lenient) /\ LawArity(A_, B_, Lenient))
 InvTransitive    == IsPair => LawTransitive(A_, B_, Universe)
+InvMetadata      == IsPair => /\ LawMetadataSilent(A_, B_, Strict) /\ LawMetadataKind(A_, B_, Strict)
+                              /\ LenientToo => (LawMetadataSilent(A_, B_, Lenient) /\ LawMetadataKind(A_, B_, Lenient))
 
 (* laws of the pipeline rule, per pipeline *)
 IsPipe == Part = "pipes" /\ case.shape # "row"
@@ -368,6 +408,14 @@ InvPipeEdges     == IsPipe => LET P == USeq[case.p]  C == USeq[case.c] IN
                               /\ (case.validate /\ case.shape \in {"direct2", "emap2", "chain3a", "chain3b", "multi2"}) =>
                                      out.expect = (CASE Verdict(P, C) = "yes" \/ HasNoAnn(P) \/ HasNoAnn(C) -> "accept"
                                                      [] OTHER -> IF Verdict(P, C) = "no" THEN "TypeError" ELSE "either")
+
+(* metadata is silent on every edge of every pipeline; with an annotation of DMeta on the edge under test the   *)
+(* outcome is that of the same shape over the erased annotations                                                *)
+InvMeta          == IsPipe => LET P == USeq[case.p]  C == USeq[case.c] IN
+                              (Erase(P) # P \/ Erase(C) # C) =>            \* (without any Annotated there is nothing to erase)
+                                  /\ LawMetadataSilentPipe(out.edges, case.validate)
+                                  /\ (case.shape \in Shapes) =>
+                                         out.expect = Construct(Edges(case.shape, Erase(P), Erase(C)), case.validate)
 
 (* named shapes: renaming moves names, never annotations, so the outcome is that of the un-renamed multi2;   *)
 (* a mapped output the consumer does not index is an object array whatever MapSpec the consumer has itself   *)
